@@ -7,6 +7,7 @@
 pub use crate::dns_cache::verif_hooks as cache;
 pub use crate::dns_parser::verif_hooks as parser;
 pub use crate::service_daemon::verif_hooks as daemon;
+pub use crate::service_daemon::verif_logic as logic;
 pub use crate::service_info::verif_hooks as info;
 
 /// State of the simulation seams (interfaces, gate, ingress/egress, jitter).
